@@ -233,6 +233,8 @@ def run_case(case, ctx):
     cs = common.load(case)
     if case["cfg"].get("load_endian"):
         ctx.count("endian-switched-after-load")
+    if case["cfg"].get("grow") and libside._grow_plan(case["defs"], case["cfg"]):
+        ctx.count("root-declared-short-used-then-completed-through-add_field")
     _compare(case, ctx, cs.Root, sem, common.ROOT, ref["data"], ref["want"], ref["end"], "field arrays")
     acc = {}
     _array_stats(sem, common.ROOT, ref["want"], ctx, acc)
